@@ -4,8 +4,8 @@
     - [C15_main_warnings_exact]: on a grammar that reaches the warning loops (parsed, validated for
       the selected shell, turned into a regex) the warnings on stderr are EXACTLY
       [Diag.warning_messages] of the validated grammar -- each once, in that (sorted) order, first
-      in the trace -- and nothing after them is a warning.  ([Props/C15.v] says which nonterminals
-      the three sets hold.)
+      in the trace -- and nothing after them is a warning.  ([Props/C15.v] / [Props/C15b.v] say which
+      nonterminals the three sets hold.)
     - [C15_main_without_warnings] / [C15_main_warnings_harmless]: [run_with wm] is the command with
       the three loops printing [wm v] instead; for ANY two choices of the warnings the traces minus
       the warnings are equal, in particular the exit status and the script write; the run with no
